@@ -209,4 +209,3 @@ package difflib
 //@   mode str
 //@   pure
 //@   assigns nothing
-//@   ensures len(r) >= 1
